@@ -28,7 +28,8 @@
 //	O6 rescan      scanning the migrated template with the new scanner gives the legacy body text and, between it,
 //	               exactly the expressions the tokens migrate to on their own (nothing glued, nothing cut)
 //	O4 body        MigrateTemplate(t) is the concatenation over the scanner tokens of t of: the body token
-//	               itself / the migration of the identifier or expression alone
+//	               itself / the migration of the identifier or expression alone (a bare identifier may keep
+//	               its parentheses when body text follows)
 package main
 
 import (
@@ -744,21 +745,43 @@ func oracleRescan(res *hx.Result, tc tcase, out string) {
 // O4: text outside expressions is unchanged, and the migration is compositional over the scanner tokens
 func oracleBody(res *hx.Result, tc tcase, out string) {
 	res.OracleChecks++
-	var sb strings.Builder
-	for _, s := range scanReal(tc.Template, expressions.ContextTopLevels) {
+	rest := out
+	ok := true
+	var want strings.Builder
+	segs := scanReal(tc.Template, expressions.ContextTopLevels)
+	for i, s := range segs {
+		var cands []string
 		switch s.T {
 		case 0:
-			sb.WriteString(s.S)
-		case 1:
-			o, _, _ := migrateReal("@"+s.S, tc.Options)
-			sb.WriteString(o)
-		case 2:
-			o, _, _ := migrateReal("@("+s.S+")", tc.Options)
-			sb.WriteString(o)
+			cands = []string{s.S}
+		default:
+			alone := "@" + s.S
+			if s.T == 2 {
+				alone = "@(" + s.S + ")"
+			}
+			o, _, _ := migrateReal(alone, tc.Options)
+			cands = []string{o}
+			// a bare identifier may keep its parentheses when body text follows (separateFrom)
+			if !strings.HasPrefix(o, "@(") && strings.HasPrefix(o, "@") && i+1 < len(segs) && segs[i+1].T == 0 {
+				cands = append(cands, "@("+o[1:]+")")
+			}
+		}
+		matched := false
+		for _, c := range cands {
+			if strings.HasPrefix(rest, c) {
+				rest = rest[len(c):]
+				matched = true
+				break
+			}
+		}
+		want.WriteString(cands[0])
+		if !matched {
+			ok = false
+			break
 		}
 	}
-	if sb.String() != out {
-		res.Fail("body:not-compositional", tc, fmt.Sprintf("migrated %q, token-wise %q", out, sb.String()))
+	if !ok || rest != "" {
+		res.Fail("body:not-compositional", tc, fmt.Sprintf("migrated %q is not the token-wise migration %q...", out, want.String()))
 	}
 }
 
